@@ -29,6 +29,7 @@ Definition leqb : list T -> list T -> bool := list_eqb Teqb.
 (* ---- one-input one-output stages (and Stream, with ins = the argument slice, incap = its length) ---- *)
 Definition stage_rel (M : transducer T) (incap : nat) (ins outs : list T) (closed cancelled : bool) : Prop :=
   exists c, prefix c ins /\ length ins <= length c + incap /\
+            tr_live M 0 c = true /\               (* nothing was consumed after the combinator's own loop had ended *)
             prefix outs (tr_run M 0 c) /\
             (closed = true -> cancelled = false ->
              outs = tr_run M 0 c /\ (c = ins \/ t_fin M (tr_state M 0 c) = true)).
@@ -36,7 +37,7 @@ Definition stage_rel (M : transducer T) (incap : nat) (ins outs : list T) (close
 Definition stage_rel_b (M : transducer T) (incap : nat) (ins outs : list T) (closed cancelled : bool) : bool :=
   existsb (fun n =>
              let c := firstn n ins in
-             (length ins <=? n + incap) && prefix_b outs (tr_run M 0 c) &&
+             (length ins <=? n + incap) && tr_live M 0 c && prefix_b outs (tr_run M 0 c) &&
              (negb closed || cancelled ||
               (leqb outs (tr_run M 0 c) && (Nat.eqb n (length ins) || t_fin M (tr_state M 0 c)))))
           (seq 0 (S (length ins))).
